@@ -113,7 +113,13 @@ def ser_header(h):
 def rand_block(rng, ntx=None):
     if ntx is None:
         ntx = rng.choice([0, 1, 1, 2, 3, 5, 8])
-    return [rand_header(rng), [rand_tx(rng) for _ in range(ntx)]]
+    h = rand_header(rng)
+    r = rng.random()
+    if r < 0.25:
+        h[2] = b'\x00' * 32          # an all-zero merkle root field is data like any other on the wire
+    elif r < 0.35:
+        h[2] = b'\xff' * 32
+    return [h, [rand_tx(rng) for _ in range(ntx)]]
 
 
 def ser_block(b, witness=True):
